@@ -104,6 +104,15 @@ func seqEval(r *core.Run, c *seqCase, clauses string) {
 		return
 	}
 	if clauses == "robust" {
+		// Aggregation on every snapshot, the (expensive) HTML rendering on a
+		// deterministic 1-in-24 sample of the sequences.
+		html := core.Hash64(in)%24 == 0
+		for _, s := range res.Snaps {
+			if k, w := renderSome(s, html); k != "" {
+				report(k, w)
+				return
+			}
+		}
 		return
 	}
 	ref := mon.NewRef()
